@@ -223,9 +223,25 @@ theorem processSel_confined {env : Env} {rec : Cfg → St → Except Err (List S
       split at h
       · cases h
       · rename_i sub' st1 hr
-        cases h
         have := hrec _ _ _ _ hr rfl hf
-        exact ⟨trivial, confFrags_putFrag (d := ⟨name, defn.cond, defn.dirs, sub'⟩) this.1 this.2⟩
+        split at h
+        · cases h
+          refine ⟨trivial, ?_⟩
+          intro f hf'
+          rcases List.mem_append.1 hf' with hf' | hf'
+          · exact this.2 f hf'
+          · have : f = _ := List.mem_singleton.1 hf'
+            subst this; exact ‹ConfSels env cfg.loc defn.cond sub' ∧ _›.1
+        · split at h
+          · cases h; exact ⟨trivial, this.2⟩
+          · rename_i hcond
+            cases h
+            have hne : (defn.cond == "") = false := by
+              simp only [Bool.or_eq_true, not_or] at hcond
+              simpa using hcond.2
+            refine ⟨?_, this.2⟩
+            simp only [ConfSel, hne, Bool.false_eq_true, if_false]
+            exact this.1
   | inline cond dirs sub =>
     simp only [processSel] at h
     split at h
